@@ -201,7 +201,7 @@ func TypeName(t reflect.Type) string {
 // NOTE: it may be the zero value
 // return value of pointer pointed if it's pointer
 func RawValue(v reflect.Value) reflect.Value {
-	for v.Kind() == reflect.Ptr {
+	for v.Kind() == reflect.Ptr || v.Kind() == reflect.Interface {
 		v = v.Elem()
 	}
 	return v
